@@ -1068,7 +1068,7 @@ func (m *sim) walkCheck(v view, prefix string, site string) {
 // canWalkInterleaved: a writable view over disk buckets only (a memory bucket holds its lock for the
 // whole walk, so nothing can interleave there), nothing in flight, no ambiguous keys.
 func (m *sim) canWalkInterleaved(v view) bool {
-	if v.wb() == nil || len(m.puts) > 0 || len(m.gets) > 0 {
+	if len(m.puts) > 0 || len(m.gets) > 0 {
 		return false
 	}
 	for _, b := range v.roots() {
@@ -1086,15 +1086,53 @@ func (m *sim) canWalkInterleaved(v view) bool {
 // that was there, untouched, from before the walk started until after it ended, each visited path once,
 // and nothing that was never there. (Objects deleted or put meanwhile may or may not be visited; a walk
 // may also fail.)
-func (m *sim) stepWalkInterleaved(v view) {
-	before := map[string]string{}
-	for k, c := range v.contents().objs {
-		before[k] = c
+func (m *sim) stepWalkInterleaved(walked view) {
+	// the other client writes through the walked view itself, or - when that one is read-only (a filter, a
+	// union, an overlay, a stripped view) or by the tape's choice - straight into one of the buckets below it
+	v := walked
+	if roots := walked.roots(); walked.wb() == nil || m.tp.Draw("wil-below", 3) == 2 {
+		v = baseView{roots[m.tp.Draw("wil-root", len(roots))]}
 	}
+	if v != walked {
+		m.s.Probe("walk-interleaved-writes-below-the-view")
+	}
+	m.stepWalkInterleaved2(walked, v)
+}
+
+func (m *sim) stepWalkInterleaved2(walked, v view) {
+	snap := func() map[string]string {
+		out := map[string]string{}
+		for k, c := range walked.contents().objs {
+			out[k] = c
+		}
+		return out
+	}
+	before := snap()
 	touched := map[string]bool{}
 	ever := map[string]bool{}
 	for k := range before {
 		ever[k] = true
+	}
+	// what the walked view holds changes with every write below it: whatever differs between two
+	// consecutive states has been touched; a key that became ambiguous in a union ends the checking
+	prev, ambiguous := before, false
+	note := func() {
+		cur := snap()
+		for k, c := range cur {
+			ever[k] = true
+			if pc, ok := prev[k]; !ok || pc != c {
+				touched[k] = true
+			}
+		}
+		for k := range prev {
+			if _, ok := cur[k]; !ok {
+				touched[k] = true
+			}
+		}
+		prev = cur
+		if ct := walked.contents(); len(ct.walkDup) > 0 || len(ct.dup) > 0 {
+			ambiguous = true
+		}
 	}
 	type cb struct{ path string }
 	atCallback := make(chan cb)
@@ -1105,11 +1143,11 @@ func (m *sim) stepWalkInterleaved(v view) {
 	readInCallback := m.tp.Draw("wil-read", 3) == 2
 	var callbackErr error
 	go func() {
-		done <- v.rb().Walk(m.ctx, "", func(info storage.ObjectInfo) error {
+		done <- walked.rb().Walk(m.ctx, "", func(info storage.ObjectInfo) error {
 			atCallback <- cb{info.Path()}
 			<-resume
 			if readInCallback {
-				if _, err := storage.ReadPath(m.ctx, v.rb(), info.Path()); err != nil {
+				if _, err := storage.ReadPath(m.ctx, walked.rb(), info.Path()); err != nil {
 					callbackErr = err
 					return err
 				}
@@ -1147,7 +1185,7 @@ loop:
 						continue
 					}
 					delete(b.model, bp)
-					touched[k] = true
+					note()
 					ndel++
 				} else {
 					// put an object atomically: a temporary file appears beside it and is renamed
@@ -1165,8 +1203,7 @@ loop:
 					}
 					b.model[bp] = content
 					m.markDirs(b, bp)
-					touched[k] = true
-					ever[k] = true
+					note()
 					nput++
 				}
 			}
@@ -1175,7 +1212,10 @@ loop:
 			break loop
 		}
 	}
-	m.s.Event("walk-interleaved %s -> %s visited=%d deleted=%d put=%d", v.label(), classify(walkErr), len(visited), ndel, nput)
+	m.s.Event("walk-interleaved %s (writes through %s) -> %s visited=%d deleted=%d put=%d", walked.label(), v.label(), classify(walkErr), len(visited), ndel, nput)
+	if ambiguous {
+		return
+	}
 	if ndel+nput > 0 {
 		m.s.Probe("walk-interleaved-with-writes")
 	}
@@ -1183,7 +1223,7 @@ loop:
 		// (the object the callback was given had been deleted by the time it read it)
 		m.s.Probe("walk-interleaved-callback-failed")
 		if walkErr == nil {
-			m.violate("walk-matches-model", "walk-interleaved|callback-error-swallowed", "a Walk of %s reported success although its callback had returned an error (%s) and the walk had stopped there, after %d of %d objects", v.label(), classify(callbackErr), len(visited), len(before))
+			m.violate("walk-matches-model", "walk-interleaved|callback-error-swallowed", "a Walk of %s reported success although its callback had returned an error (%s) and the walk had stopped there, after %d of %d objects", walked.label(), classify(callbackErr), len(visited), len(before))
 		}
 		return
 	}
@@ -1195,13 +1235,13 @@ loop:
 	for _, g := range visited {
 		seen[g]++
 	}
-	after := v.contents().objs
+	after := snap()
 	for _, g := range simfs.SortedKeys(seen) {
 		if seen[g] > 1 {
-			m.violate("walk-each-once", "walk-interleaved", "a Walk of %s with writes in between visited %q %d times", v.label(), g, seen[g])
+			m.violate("walk-each-once", "walk-interleaved", "a Walk of %s with writes in between visited %q %d times", walked.label(), g, seen[g])
 		}
 		if !ever[g] && !simfs.IsTemp(g) {
-			m.violate("walk-matches-model", "walk-interleaved", "a Walk of %s with writes in between visited %q, which was not there at any time", v.label(), g)
+			m.violate("walk-matches-model", "walk-interleaved", "a Walk of %s with writes in between visited %q, which was not there at any time", walked.label(), g)
 		}
 	}
 	for _, k := range simfs.SortedKeys(before) {
@@ -1209,7 +1249,7 @@ loop:
 			continue
 		}
 		if seen[k] == 0 {
-			m.violate("walk-matches-model", "walk-interleaved|stable-object-missed", "a Walk of %s reported success but did not visit %q, which was there, untouched, before, during and after the walk (%d objects deleted and %d put while it ran; it visited %d of %d)", v.label(), k, ndel, nput, len(visited), len(before))
+			m.violate("walk-matches-model", "walk-interleaved|stable-object-missed", "a Walk of %s reported success but did not visit %q, which was there, untouched, before, during and after the walk (%d objects deleted and %d put while it ran; it visited %d of %d)", walked.label(), k, ndel, nput, len(visited), len(before))
 		}
 	}
 }
